@@ -480,7 +480,9 @@ def exception_sites(repo):
         helpers, inside = set(), set()
         for hm in re.finditer(r"^(?:static\s+)?(?:inline\s+)?void\s+(\w+)\s*\(([^)]*)\)\s*\{([^{}]*)\}", "\n".join(L), re.M):
             am = re.search(r"->exception\s*=\s*(\w+)\s*;", hm.group(3))
-            if re.search(r"running\s*=\s*VM_EXCEPTION", hm.group(3)) and am and re.search(r"\b%s\s*(,|$)" % re.escape(am.group(1)), hm.group(2).strip()):
+            # ... or a fixed constant: `static void libvm_raise_nil_pointer(vm * machine) { machine->running = VM_EXCEPTION; machine->exception = EXCEPT_NIL_POINTER; }`
+            if re.search(r"running\s*=\s*VM_EXCEPTION", hm.group(3)) and am and \
+                    (re.search(r"\b%s\s*(,|$)" % re.escape(am.group(1)), hm.group(2).strip()) or re.fullmatch(r"EXCEPT_\w+", am.group(1))):
                 helpers.add(hm.group(1))
                 first = "\n".join(L)[:hm.start()].count("\n")
                 inside.update(range(first, first + hm.group(0).count("\n") + 1))
